@@ -157,14 +157,15 @@ Lemma pagg_vals t res2 temps T e fn arg :
               (mem fn' agg_names = true -> forall grp, agg_fn fl_pandas fn' (map V grp) = agg_value fl_pandas (cols t) grp e).
 Proof.
   intros E CT CC Sh Ok vals fn' H. unfold agg_ok in Ok. rewrite Sh in Ok.
-  destruct e as [c0|v0|o args]; try discriminate. destruct args as [|a [|b rest]]; try discriminate.
+  destruct e as [c0|v0|o args]; [discriminate Sh|discriminate Sh|].
+  destruct args as [|a [|b rest]]; [| |destruct a; discriminate Sh].
   - (* fn() *)
     inversion Sh; subst fn arg. subst o. cbn [strip_underscore] in H. cbn in H.
     destruct (pd_col T res2) as [vs|] eqn:Ec; cbn [obind] in H; [|discriminate]. inversion H; subst vals fn'. clear H.
     apply pd_col_inv in Ec. destruct Ec as [-> _]. rewrite (const_col_getcol _ _ _ CT).
     exists (fun _ => vone). split; [apply map_const_len, extends_rows_len, E|].
     intros _ grp. unfold agg_value. cbn [agg_parts]. apply agg_size_ones.
-  - destruct a as [c|v|o' args']; try discriminate; inversion Sh; subst fn arg.
+  - destruct a as [c|v|o' args']; [| |discriminate Sh]; inversion Sh; subst fn arg.
     + (* fn(column) *)
       destruct (pd_col c res2) as [vs|] eqn:Ec; cbn [obind] in H; [|discriminate]. inversion H; subst vals fn'. clear H.
       apply pd_col_inv in Ec. destruct Ec as [-> _]. rewrite (extends_getcol _ _ _ E Ok).
